@@ -1123,13 +1123,14 @@ func vpRunTriggerBurst(t *vcTrial) {
 		time.Sleep(time.Duration(r.rng(200, 4000)) * time.Microsecond)
 		atomic.StoreInt32(&stop, 1)
 		wg.Wait()
-		// "a blocked loop": wait until the wake-ups of the burst are completely handled - the flag is
-		// clear and the batch that handled the last wake-up has ended (a Trigger that lands between
-		// the loop's eventfd read and its clearing of the flag coincides with a wake-up in progress,
-		// it is not lost)
+		// "a blocked loop": wait until the wake-ups of the burst are completely handled - nothing is
+		// pending on the wake-up descriptor and the batch that handled the last wake-up has ended (a
+		// Trigger that lands between the loop's eventfd read and its clearing of the flag coincides
+		// with a wake-up in progress, it is not lost). The flag itself is not consulted: whether it
+		// is consistent with the descriptor is what the single Trigger below finds out.
 		quiet := false
 		for dl := time.Now().Add(3 * time.Second); time.Now().Before(dl); {
-			if atomic.LoadUint32(&dp.trigger) == 0 {
+			if k, _ := sysPoll([]pollFd{{fd: int32(dp.wop.FD), events: 1}}, 0); k == 0 { // nothing pending on the wake-up descriptor
 				var lastWake, lastEnd uint64
 				for _, e := range vcTraceSince(roundMark) {
 					if e.Obj != vcObjID(dp) {
@@ -1142,7 +1143,7 @@ func vpRunTriggerBurst(t *vcTrial) {
 						lastEnd = e.Seq
 					}
 				}
-				if lastEnd > lastWake && atomic.LoadUint32(&dp.trigger) == 0 {
+				if k, _ := sysPoll([]pollFd{{fd: int32(dp.wop.FD), events: 1}}, 0); lastEnd > lastWake && k == 0 {
 					quiet = true
 					break
 				}
